@@ -30,6 +30,8 @@ type IOpt<T> =
 
 type IBox<T> = {Val: T; Tag: string}
 type IPair<A, B> = {Fst: A; Snd: B}
+type ITagged<T, P> = {TVal: T}
+type IRev<A, B> = {RSecond: B; RFirst: A}
 type IEither<A, B> =
 | ILeft of A
 | IRight of B
@@ -1074,6 +1076,7 @@ def generate(rng, n):
 # ------------------------------------------------------------------------------------------ abstract syntax -> Folang text
 CALLFMT = {"int+": "{0} + {1}", "same+": "{0} + {1}", "str+": "{0} + {1}", "cmp": "{0} < {1}", "eq": "{0} = {1}", "{IR1}": "{{A={0}; B={1}}}", "{IR2}": "{{Name={0}; Vals={1}}}", "{IR3}": "{{C={0}; D={1}}}",
            "{IBox}": "{{Val={0}; Tag={1}}}", "{IPair}": "{{Fst={0}; Snd={1}}}",
+           "{ITagged}": "{{TVal={0}}}", "{IRev}": "{{RSecond={1}; RFirst={0}}}", "ipair<int>": "ipair<int> {0} {1}",
            "ILeft<int,string>": "ILeft<int, string> {0}", "IRight<int,string>": "IRight<int, string> {0}"}
 
 
@@ -1221,6 +1224,18 @@ def kernels():
     K("k23b", ["x", "y", "a", "b"], [["let", "p", ["slice", [V("x"), L(V("a"))]]], ["let", "q", ["slice", [V("y"), R(V("b"))]]],
                                      ["let", "r", ["slice", [V("x"), V("y")]]]], pair(pair(V("p"), V("q")), V("r")))
     KA("k23c", ["e", "a", "b"], {"e": EI}, ["match", "e", [["ILeft", "n", pair(V("n"), V("b"))], ["IRight", "s", pair(V("a"), V("s"))]], []])
+    # a generic record with a PHANTOM type parameter (no field mentions it): it stays a type parameter of the function
+    K("k24a", ["v"], [], call("{ITagged}", V("v")))
+    K("k24b", ["v", "w"], [["let", "l", ["slice", [call("{ITagged}", V("v")), call("{ITagged}", V("w"))]]]], pair(V("l"), V("v")))
+    # a generic record whose FIELDS are declared in another order than its type parameters: the type parameters of the function are
+    # numbered by first occurrence in the signature (IRev<T0, T1>), not in field order (defect 31)
+    K("k26a", ["p", "a", "b"], [["let", "l", ["slice", [V("p"), call("{IRev}", V("a"), V("b"))]]]], V("l"))
+    K("k26b", ["p", "b"], [["let", "l", ["slice", [V("p"), call("{IRev}", LIT["int"], V("b"))]]]], pair(V("l"), _fld("p", "RSecond")))
+    # explicit type arguments for a PREFIX of the type parameters: the others are instantiated freshly at every use
+    PU = lambda a, b: call("ipair<int>", a, b)
+    K("k25a", ["x", "y"], [], pair(PU(LIT["int"], V("x")), PU(LIT["int"], V("y"))))
+    K("k25b", ["x"], [], pair(PU(LIT["int"], V("x")), PU(LIT["int"], LIT["str"])))
+    K("k25c", ["x", "y"], [["let", "p", PU(LIT["int"], V("x"))], ["let", "q", PU(LIT["int"], V("y"))], ["let", "k", ["slice", [V("x"), LIT["str"]]]]], pair(pair(V("p"), V("q")), V("k")))
     # a lambda parameter with the name of an outer variable that is used again after the lambda: the two are different variables
     K("k21a", ["x", "ys"], [["let", "zs", call("slice.Map", ["lam", "x", call("int+", V("x"), LIT["int"])], V("ys"))]], pair(V("x"), V("zs")))
     K("k21b", ["x", "ys"], [["let", "zs", call("slice.Map", ["lam", "x", call("int+", V("x"), LIT["int"])], V("ys"))], ["let", "w", ["slice", [V("x"), LIT["str"]]]]], pair(V("w"), V("zs")))
